@@ -25,8 +25,11 @@ Inductive case :=
    lists the recorded events of each trap action *)
 | CMonitor (tbl : table) (trace : list event) (dead : bool)
 (* `trap` built-in commands naming several conditions, run by the real shell
-   entered with some signals ignored; see [bstep] *)
-| CBuiltin (univ : list (N * disp)) (steps : list bstep) (complete : bool)
+   (non-interactive, or interactive `-i` with job control: then the trap
+   commands override and the shell has installed its internal dispositions for
+   INT/TERM/QUIT and TSTP/TTIN/TTOU at startup) entered with some signals
+   ignored; see [bstep] *)
+| CBuiltin (interactive : bool) (univ : list (N * disp)) (steps : list bstep) (complete : bool)
 (* the implementation panicked (or the shell hung) on the input described in
    the case's JSON *)
 | CPanic (stream : N).
@@ -117,15 +120,15 @@ Fixpoint slookup (l : list (N * spec)) (c : N) : option spec :=
 
 (* the reference: each named condition is processed on its own; KILL and STOP
    are refused, a signal ignored on entry is silently left alone *)
-Definition spec_result (c : N) (sp : spec) : res :=
+Definition spec_result (inter : bool) (c : N) (sp : spec) : res :=
   if N.eqb c SIGKILL then RErrKill
   else if N.eqb c SIGSTOP then RErrStop
-  else if u_locked sp && is_signal c then RErrIgnored
+  else if negb inter && u_locked sp && is_signal c then RErrIgnored
   else ROk.
 
-Definition spec_apply (sps : list (N * spec)) (o : op) (c : N) : list (N * spec) :=
+Definition spec_apply (inter : bool) (sps : list (N * spec)) (o : op) (c : N) : list (N * spec) :=
   map (fun p =>
-         let r := match slookup sps c with Some sp => spec_result c sp | None => ROk end in
+         let r := match slookup sps c with Some sp => spec_result inter c sp | None => ROk end in
          (fst p, spec_step true (fst p) (snd p) o r)) sps.
 
 Definition final_clauses (c : N) (sp : spec) (n : sobs) : option N :=
@@ -142,8 +145,8 @@ Fixpoint final_check (sps : list (N * spec)) (new : list (N * sobs)) : option N 
   end.
 
 (* the model: the TrapSet operations the built-in performs, in order *)
-Definition trap_ops (conds : list N) (a : action) (valid : bool) : list op :=
-  if valid then map (fun c => OSetAction c a 0 false) conds else [].
+Definition trap_ops (inter : bool) (conds : list N) (a : action) (valid : bool) : list op :=
+  if valid then map (fun c => OSetAction c a 0 inter) conds else [].
 
 Fixpoint gapply_results (g : gstate) (ops : list op) : gstate * list res :=
   match ops with
@@ -160,17 +163,17 @@ Definition hard_error (r : res) : bool :=
 (* the action (if any) run at the boundary after a delivery *)
 Definition hit_of (a : action) : list N := match a with ACommand id => [id] | _ => [] end.
 
-Fixpoint run_bsteps (keys : list N) (g : gstate) (sps : list (N * spec))
+Fixpoint run_bsteps (inter : bool) (keys : list N) (g : gstate) (sps : list (N * spec))
     (prev : list (N * sobs)) (steps : list bstep) (mismatch : bool) : verdict :=
   match steps with
   | [] => if mismatch then 1%N else 0%N
   | BTrapCmd conds a valid ok new :: steps =>
-      let ops := trap_ops conds a valid in
+      let ops := trap_ops inter conds a valid in
       if negb (list_eqb N.eqb (map fst new) keys && forallb (fun c => mem c keys) conds) then 99%N
       else
         (* oracle *)
         let sps' := fold_left (fun s o => match o with
-                                          | OSetAction c _ _ _ => spec_apply s o c
+                                          | OSetAction c _ _ _ => spec_apply inter s o c
                                           | _ => s end) ops sps in
         let ok_spec := valid && negb (existsb (fun c => N.eqb c SIGKILL || N.eqb c SIGSTOP) conds) in
         match final_check sps' new with
@@ -183,11 +186,12 @@ Fixpoint run_bsteps (keys : list N) (g : gstate) (sps : list (N * spec))
                 list_eqb (pair_eqb N.eqb sobs_eqb)
                          (map (fun p => (fst p, observe (snd p))) g') new
                 && Bool.eqb ok (valid && negb (existsb hard_error rs)) in
-              run_bsteps keys g' sps' new steps (mismatch || negb agree)
+              run_bsteps inter keys g' sps' new steps (mismatch || negb agree)
         end
   | BDeliver c hits new :: steps =>
       let deliverable :=
         negb (N.eqb c SIGKILL) && negb (N.eqb c SIGSTOP) && is_signal c &&
+        negb (inter && N.eqb c SIGINT) &&
         match olookup prev c with
         | Some p => negb (disp_eqb (ob_disp p) Default)
         | None => false
@@ -225,15 +229,26 @@ Fixpoint run_bsteps (keys : list N) (g : gstate) (sps : list (N * spec))
                 list_eqb (pair_eqb N.eqb sobs_eqb)
                          (map (fun p => (fst p, observe (snd p))) g2) new
                 && list_eqb N.eqb mhits hits in
-              run_bsteps keys g2 sps' new steps (mismatch || negb agree)
+              run_bsteps inter keys g2 sps' new steps (mismatch || negb agree)
           end
   end.
 
-Definition run_builtin_case (univ : list (N * disp)) (steps : list bstep) (complete : bool)
-    : verdict :=
-  if negb (univ_ok univ) then 99%N
+(* what an interactive shell with job control installs at startup
+   (yash-cli/src/startup.rs configure_environment) *)
+Definition startup_gops (inter : bool) : list gop :=
+  if inter then [GEnableTerm; GEnableStop] else [].
+
+Definition run_builtin_case (inter : bool) (univ : list (N * disp)) (steps : list bstep)
+    (complete : bool) : verdict :=
+  let keys := map fst univ in
+  if negb (univ_ok univ
+           && forallb (fun o => gop_ok keys o) (startup_gops inter)) then 99%N
   else if negb complete then 14%N
-  else run_bsteps (map fst univ) (ginit univ) (spec_inits univ) (obs_inits univ) steps false.
+  else
+    let g0 := fold_left gstep (startup_gops inter) (ginit univ) in
+    let ops0 := flat_map (fun o => resolve o ROk) (startup_gops inter) in
+    let sps0 := map (fun p => (fst p, spec_steps true (fst p) (snd p) ops0 ROk)) (spec_inits univ) in
+    run_bsteps inter keys g0 sps0 (map (fun p => (fst p, observe (snd p))) g0) steps false.
 
 Definition run_case (c : case) : verdict :=
   match c with
@@ -242,7 +257,7 @@ Definition run_case (c : case) : verdict :=
   | CMonitor tbl trace dead =>
       if negb (forallb body_ok tbl) then 99%N
       else match monitor true tbl trace dead with Some k => (20 + k)%N | None => 0%N end
-  | CBuiltin univ steps complete => run_builtin_case univ steps complete
+  | CBuiltin inter univ steps complete => run_builtin_case inter univ steps complete
   | CPanic _ => 12%N
   end.
 
